@@ -19,7 +19,7 @@ typedef ebpps_sketch<uint64_t> EB;
 
 const char* property_id() { return "C18"; }
 unsigned case_timeout_s() { return 300; }
-static const uint64_t NSTAT_QUICK = 10, NSTAT_THOROUGH = 20;
+static const uint64_t NSTAT_QUICK = 13, NSTAT_THOROUGH = 23;
 uint64_t num_cases(bool thorough) { return thorough ? NSTAT_THOROUGH + 150000 : NSTAT_QUICK + 14000; }
 void final_report() {}
 
@@ -113,9 +113,9 @@ static void observe(const EB& s, const Model& m, const char* after, int draws) {
 }
 
 // ---------------------------------------------------------------- weights
-enum Kind { K_UNIFORM, K_EXPSPREAD, K_HEAVYTAIL, K_EQUAL, K_GIANT, K_INCREASING, K_DECREASING, K_DYADIC, K_TWOLEVEL, K_NKINDS };
+enum Kind { K_UNIFORM, K_EXPSPREAD, K_HEAVYTAIL, K_EQUAL, K_GIANT, K_INCREASING, K_DECREASING, K_DYADIC, K_TWOLEVEL, K_PATTERN, K_NKINDS };
 static const char* kind_name(int k) {
-  static const char* n[] = {"uniform", "expspread", "heavytail", "equal", "giant", "increasing", "decreasing", "dyadic", "twolevel"};
+  static const char* n[] = {"uniform", "expspread", "heavytail", "equal", "giant", "increasing", "decreasing", "dyadic", "twolevel", "pattern_1_1_half"};
   return n[k];
 }
 struct WGen {
@@ -144,6 +144,7 @@ struct WGen {
       case K_DECREASING: return geometric ? base * std::pow(p1, static_cast<double>(n - 1 - (i % n))) : base * static_cast<double>(2 * n - (i % n));
       case K_DYADIC: return static_cast<double>(1 + r.below(64)) / 16.0;
       case K_TWOLEVEL: return r.chance(0.2) ? base * p1 : base;
+      case K_PATTERN: return (i % 3 == 2) ? 0.5 : 1.0;   // 1, 1, 0.5, ... : fractional c with full items while c < k
     }
     return 1.0;
   }
@@ -294,6 +295,23 @@ static void explore_case(Rng& r) {
       live.erase(live.begin() + static_cast<long>(b));   // the argument is dropped (merging it twice would legitimately duplicate ids)
     }
   }
+  // many read-outs of one clearly fractional-c sketch: both floor(c) and ceil(c) must occur on each path
+  for (Live& L : live) {
+    const double c = L.sk->get_c();
+    double ci; const double fr = std::modf(c, &ci);
+    if (L.m.n == 0 || L.m.k > 120 || fr < 0.15 || fr > 0.85 || !r.chance(0.5)) continue;
+    uint64_t nf[2] = {0, 0}, nc[2] = {0, 0};
+    for (int d2 = 0; d2 < 300; ++d2) {
+      const size_t s0 = L.sk->get_result().size();
+      size_t s1 = 0;
+      for (auto it = L.sk->begin(); it != L.sk->end(); ++it) { if (++s1 > static_cast<size_t>(L.m.k) + 8) break; }
+      if (static_cast<double>(s0) == ci) ++nf[0]; else if (static_cast<double>(s0) == ci + 1) ++nc[0];
+      if (static_cast<double>(s1) == ci) ++nf[1]; else if (static_cast<double>(s1) == ci + 1) ++nc[1];
+    }
+    VF_CHECK(nf[0] > 0 && nc[0] > 0, "sketch|get_result|only-one-sample-size-for-fractional-c", d + " c=" + str(c) + " floor-sized=" + std::to_string(nf[0]) + " ceil-sized=" + std::to_string(nc[0]) + " of 300");
+    VF_CHECK(nf[1] > 0 && nc[1] > 0, "sketch|iteration|only-one-sample-size-for-fractional-c", d + " c=" + str(c) + " floor-sized=" + std::to_string(nf[1]) + " ceil-sized=" + std::to_string(nc[1]) + " of 300");
+    count("many_readouts_fractional_c");
+  }
   if (want_sample()) sample("{\"config\":" + jstr(G().cur_desc) + ",\"final_n\":" + std::to_string(live[0].m.n) + ",\"final_c\":" + str(live[0].sk->get_c()) + "}");
 }
 
@@ -304,6 +322,7 @@ static const Cell CELLS[] = {
   {40, 5, K_UNIFORM, 0, 0}, {60, 10, K_TWOLEVEL, 0, 0}, {30, 3, K_DYADIC, 0, 0}, {30, 60, K_UNIFORM, 0, 0},
   {48, 6, K_UNIFORM, 1, 9}, {60, 12, K_TWOLEVEL, 2, 7}, {24, 1, K_UNIFORM, 0, 0}, {80, 20, K_DECREASING, 0, 0},
   {36, 50, K_INCREASING, 0, 0}, {40, 50, K_UNIFORM, 1, 45},
+  {3, 10, K_PATTERN, 0, 0} /* weights 1, 1, 0.5 -> c = 2.5 */, {8, 10, K_PATTERN, 0, 0} /* c = 7 */, {11, 20, K_PATTERN, 1, 25} /* c = 9.5 after merge */,
   {64, 16, K_HEAVYTAIL, 0, 0}, {50, 5, K_EQUAL, 0, 0}, {45, 9, K_UNIFORM, 2, 4}, {30, 2, K_TWOLEVEL, 0, 0},
   {70, 10, K_UNIFORM, 1, 30}, {20, 30, K_GIANT, 0, 0}, {50, 8, K_GIANT, 0, 0}, {36, 4, K_INCREASING, 0, 0}, {40, 7, K_DYADIC, 1, 7},
   {50, 80, K_DYADIC, 2, 70},
@@ -322,42 +341,64 @@ static void stat_cell(uint64_t idx, Rng& r) {
   for (int i = 0; i < c.n; ++i) { w[i] = g.next(sr, i); if (c.kind == K_INCREASING || c.kind == K_DECREASING) w[i] = 1.0 + (c.kind == K_INCREASING ? i : c.n - i); total += w[i]; wmax = std::max(wmax, w[i]); }
   const uint32_t keff = c.merge ? std::min(c.k, c.k2) : c.k;
   const double cexp = std::min<double>(keff, static_cast<double>(total / wmax));
-  std::vector<uint64_t> hits(c.n, 0);
-  double size_sum = 0;
+  // two read-out paths of the same sketch, each its own random draw: [0] get_result(), [1] begin()..end()
+  std::vector<uint64_t> hits[2] = {std::vector<uint64_t>(c.n, 0), std::vector<uint64_t>(c.n, 0)};
+  double size_sum[2] = {0, 0};
+  uint64_t n_floor[2] = {0, 0}, n_ceil[2] = {0, 0};
+  auto read_both = [&](const EB& s) {
+    std::vector<uint64_t> res[2];
+    res[0] = s.get_result();
+    for (auto it = s.begin(); it != s.end(); ++it) { res[1].push_back(*it); if (res[1].size() > static_cast<size_t>(c.n) + 8) break; }
+    for (int pth = 0; pth < 2; ++pth) {
+      for (uint64_t id : res[pth]) if (id < static_cast<uint64_t>(c.n)) ++hits[pth][id];
+      size_sum[pth] += static_cast<double>(res[pth].size());
+      if (static_cast<double>(res[pth].size()) == std::floor(cexp)) ++n_floor[pth];
+      if (static_cast<double>(res[pth].size()) == std::ceil(cexp)) ++n_ceil[pth];
+    }
+  };
   for (uint64_t t = 0; t < trials; ++t) {
     random_utils::rand.seed(r.next());
-    std::vector<uint64_t> res;
     if (c.merge == 0) {
       EB s(c.k);
       for (int i = 0; i < c.n; ++i) s.update(static_cast<uint64_t>(i), w[i]);
-      res = s.get_result();
+      read_both(s);
     } else {
       EB a(c.k), b(c.k2);
       const int cut = c.n * 2 / 3;
       for (int i = 0; i < cut; ++i) a.update(static_cast<uint64_t>(i), w[i]);
       for (int i = cut; i < c.n; ++i) b.update(static_cast<uint64_t>(i), w[i]);
-      if (c.merge == 1) { a.merge(b); res = a.get_result(); }
-      else { b.merge(std::move(a)); res = b.get_result(); }
+      if (c.merge == 1) { a.merge(b); read_both(a); }
+      else { b.merge(std::move(a)); read_both(b); }
     }
-    for (uint64_t id : res) if (id < static_cast<uint64_t>(c.n)) ++hits[id];
-    size_sum += static_cast<double>(res.size());
   }
   const std::string fam = c.merge ? "merge" : "sketch";
+  static const char* path_key[2] = {"", "|iteration"};          // get_result keeps the original keys
+  static const char* path_name[2] = {"get_result", "begin/end"};
   double worst = 0;
-  for (int i = 0; i < c.n; ++i) {
-    const double p = std::min(1.0, w[i] * cexp / static_cast<double>(total));
-    const double f = static_cast<double>(hits[i]) / static_cast<double>(trials);
-    const double se = std::sqrt(p * (1 - p) / static_cast<double>(trials));
-    const double tol = 5 * se + 2.0 / static_cast<double>(trials) + 1e-9;
-    if (se > 0) worst = std::max(worst, std::fabs(f - p) / se);
-    VF_CHECK(std::fabs(f - p) <= tol, fam + "|inclusion-frequency-not-proportional-to-weight",
-             "item=" + std::to_string(i) + " w=" + str(w[i]) + " expected=" + str(p) + " observed=" + str(f) + " se=" + str(se) + " trials=" + std::to_string(trials));
-  }
-  // mean sample size is c
-  const double ms = size_sum / static_cast<double>(trials);
   double ip; const double fr = std::modf(cexp, &ip);
-  const double se_s = std::sqrt(fr * (1 - fr) / static_cast<double>(trials));
-  VF_CHECK(std::fabs(ms - cexp) <= 5 * se_s + 2.0 / static_cast<double>(trials) + 1e-9, fam + "|mean-sample-size-not-c", "mean=" + str(ms) + " c=" + str(cexp));
+  double ms = 0;
+  for (int pth = 0; pth < 2; ++pth) {
+    for (int i = 0; i < c.n; ++i) {
+      const double p = std::min(1.0, w[i] * cexp / static_cast<double>(total));
+      const double f = static_cast<double>(hits[pth][i]) / static_cast<double>(trials);
+      const double se = std::sqrt(p * (1 - p) / static_cast<double>(trials));
+      const double tol = 5 * se + 2.0 / static_cast<double>(trials) + 1e-9;
+      if (se > 0) worst = std::max(worst, std::fabs(f - p) / se);
+      VF_CHECK(std::fabs(f - p) <= tol, fam + path_key[pth] + "|inclusion-frequency-not-proportional-to-weight",
+               std::string("path=") + path_name[pth] + " item=" + std::to_string(i) + " w=" + str(w[i]) + " expected=" + str(p) + " observed=" + str(f) + " se=" + str(se) + " trials=" + std::to_string(trials));
+    }
+    // mean sample size is c
+    ms = size_sum[pth] / static_cast<double>(trials);
+    const double se_s = std::sqrt(fr * (1 - fr) / static_cast<double>(trials));
+    VF_CHECK(std::fabs(ms - cexp) <= 5 * se_s + 2.0 / static_cast<double>(trials) + 1e-9, fam + path_key[pth] + "|mean-sample-size-not-c",
+             std::string("path=") + path_name[pth] + " mean=" + str(ms) + " c=" + str(cexp));
+    // a clearly fractional c: both sizes must turn up (probability of a miss < 0.98^T)
+    if (fr >= 0.02 && fr <= 0.98) {
+      VF_CHECK(n_floor[pth] > 0 && n_ceil[pth] > 0, fam + path_key[pth] + "|only-one-sample-size-for-fractional-c",
+               std::string("path=") + path_name[pth] + " c=" + str(cexp) + " floor-sized=" + std::to_string(n_floor[pth]) + " ceil-sized=" + std::to_string(n_ceil[pth]) + " read-outs=" + std::to_string(trials));
+      count("both_sizes_checks");
+    }
+  }
   count(c.merge ? "inclusion_cells_merge" : "inclusion_cells_sketch");
   count("inclusion_trials", trials);
   sig(mix64(0x18ce, idx));
